@@ -97,7 +97,20 @@ def apply(r, cfg, name):
 
 
 def sweep(cfg, fill, hist, transport='udp'):
-    r = make_rig(cfg, transport, fill=fill)
+    keep = False
+    if cfg.get('other_object_first'):
+        # another object of the family - the other transport, so other command classes and framing - reads every id singly
+        # before this object exists (own inverter, same register contents)
+        world.reset()
+        r0 = make_rig({k: v for k, v in cfg.items() if k != 'other_object_first'}, 'tcp' if transport == 'udp' else 'udp', fill=fill, keep_world=True)
+        if r0.call(r0.inv.read_device_info)[0] == 'ok':
+            r0.call(r0.inv.read_runtime_data)
+            for x in world.listed(r0.inv):
+                r0.call(r0.inv.read_sensor, x.id_)
+            for x in r0.inv.settings():
+                r0.call(r0.inv.read_setting, x.id_)
+        keep = True
+    r = make_rig(cfg, transport, fill=fill, keep_world=keep)
     inv, dev = r.inv, r.dev
     if cfg['family'] in ('ET',):
         dev.rf.set(35184, cfg['battery_mode'])
@@ -215,6 +228,16 @@ def sweep(cfg, fill, hist, transport='udp'):
     return vio, h(state), len(ids)
 
 
+def _known16():
+    from ..findings import Report
+    global _KNOWN16
+    try:
+        return _KNOWN16
+    except NameError:
+        _KNOWN16 = set(Report('C16').known)
+        return _KNOWN16
+
+
 def job(j):
     cfg, fname, seed, depth, transport = j[:5]
     root = j[5] if len(j) > 5 else None        # subtree of one first letter (the subtrees are explored in parallel)
@@ -234,6 +257,8 @@ def job(j):
         nids += k
         for key, cause, sid in vio:
             kk = f"{key}/{cfg['family']}"
+            if cfg.get('other_object_first') and ('C16', kk) not in _known16():
+                kk += '/another-object-read-first'       # (a recorded finding keeps its identity whatever the history)
             out.setdefault(kk, []).append(dict(key=kk, clause=key.split('/')[0],
                                                replay=dict(cfg=cfg, fill=fname, history=hist, transport=transport, sensor=sid),
                                                detail=dict(cause=cause, history=hist)))
@@ -279,6 +304,9 @@ def run(tier, seed, rep):
                 lt = HIST if cfg['family'] == 'ET' else HIST_DT if cfg['family'] == 'DT' else []
                 jobs += [(cfg, fname, seed, d, 'udp', first) for first in lt]
         jobs.append((cfg, 'small-values', seed, 1, 'tcp' if cfg['family'] != 'ES' else 'udp'))
+        if cfg['family'] != 'ES':
+            jobs.append((dict(cfg, other_object_first=True), 'seed-context', seed, 1, 'udp'))
+            jobs.append((dict(cfg, other_object_first=True), 'small-values', seed, 0, 'tcp'))
     total = nids = edges = 0
     states = set()
     for n, k, res, sts, e in pmap(job, jobs):
